@@ -2,6 +2,7 @@
 From Coq Require Import List ZArith NArith Bool Reals Lra.
 Import ListNotations.
 From GS Require Import Num NumR EventLoop Kernel Sim.
+From GS Require Import NumZ Sim ExampleKit.
 From GS.Proofs Require Import Aux SimP SimP3 TraceSpec DrawSpec.
 
 Section C10.
@@ -64,6 +65,16 @@ Theorem C10_loss_threshold (f u : R) :
 Proof.
   simpl. split; [apply Rltb_false|]. intros H1 H2. apply Rltb_false. lra.
 Qed.
+
+(** Non-vacuity: failure rate 1 (integers), draws 0 then 2: the first copy of the broadcast is lost, the
+    second survives; two draws consumed. *)
+Definition ex10 (n : nat) (ps : unit) (now : Z) (c : cb Z) : unit * list (action Z) :=
+  match c, n with CbInit, O => (tt, [ABroadcast 8]) | _, _ => (tt, []) end.
+Example C10_example :
+  runx (cfgx [HTimer; HComm] 3 [(0, 0, 0)%Z; (0, 0, 0)%Z; (0, 0, 0)%Z] 10%Z 0%Z 1%Z 1%Z 1%Z [] [0%Z; 2%Z]) ex10 None None 20 =
+  ([TCb 0 0%Z CbInit; TAct 0 (ABroadcast 8) Ok; TCb 1 0%Z CbInit; TCb 2 0%Z CbInit; TCb 2 0%Z (CbPacket 8);
+    TCb 0 0%Z CbFinish; TCb 1 0%Z CbFinish; TCb 2 0%Z CbFinish], true, 2, [(0, 0, 0)%Z; (0, 0, 0)%Z; (0, 0, 0)%Z]).
+Proof. vm_compute. reflexivity. Qed.
 
 Print Assumptions C10_one_copy.
 Print Assumptions C10_broadcast_independent.
